@@ -4,6 +4,7 @@ import re
 
 from hypothesis import strategies as st
 
+from vlib import rivals
 from vlib.core import Part, Violation, Discard, call
 
 from mitxgraders import (StringGrader, FormulaGrader, SingleListGrader, ListGrader,
@@ -207,7 +208,9 @@ def decode(o):
 def build(g, extra):
     kw = {k: decode(v) for k, v in g['kw'].items()}
     kw.update(extra)
-    return GRADERS[g['$grader']](**kw)
+    grader = GRADERS[g['$grader']](**kw)
+    rivals.after_build(grader)     # vlib/rivals.py
+    return grader
 
 
 def entries_of(res):
